@@ -108,3 +108,28 @@ Print Assumptions C03_resolve_immediates_from_source.
 Theorem C03_resolve_labels_from_source : Proofs.Guards.resolve_labels_from_source_stmt.
 Proof. exact Proofs.Guards.resolve_labels_from_source. Qed.
 Print Assumptions C03_resolve_labels_from_source.
+
+(* ---- the position bookkeeping of the SOURCE, path by path (Gen/Book.v, regenerated on every run; Proofs/Book.v): in resolve_labels,
+   both compression passes, the pseudo-instruction pass, resolve_aligns and resolve_immediates every appended item is paired with exactly
+   one `position += <its size>` and nothing else advances the position -- what the pass model's running position assumes *)
+From BB Require Gen.Book Proofs.Book.
+Theorem C03_position_bookkeeping_from_source : Proofs.Book.bookkeeping_ok = true.
+Proof. exact Proofs.Book.bookkeeping_from_source. Qed.
+Print Assumptions C03_position_bookkeeping_from_source.
+
+(* ---- the order of the passes and the label updates, as the SOURCE has them today (Gen/PassTable.v; Proofs/PassOrder.v) *)
+From BB Require Gen.PassTable Proofs.PassOrder.
+Theorem C03_pass_order_from_source : forall its consts0 labels0 compress,
+  assemble_items its consts0 labels0 compress =
+  obind (Proofs.PassOrder.run Gen.PassTable.pass_order compress
+           {| Proofs.PassOrder.ps_items := its; Proofs.PassOrder.ps_consts := consts0; Proofs.PassOrder.ps_labels := labels0;
+              Proofs.PassOrder.ps_chunks := None |})
+        Proofs.PassOrder.finish.
+Proof. exact Proofs.PassOrder.assemble_is_pass_order. Qed.
+Print Assumptions C03_pass_order_from_source.
+Theorem C03_label_updates_from_source :
+  forallb Proofs.PassOrder.update_ok Gen.PassTable.label_updates = true /\
+  forallb (fun p => existsb (fun u => String.eqb (fst (fst u)) p) Gen.PassTable.label_updates)
+          ["transform_compressible"; "transform_pseudo_instructions"; "resolve_aligns"]%string = true.
+Proof. exact Proofs.PassOrder.label_updates_ok. Qed.
+Print Assumptions C03_label_updates_from_source.
